@@ -27,7 +27,7 @@ use p2panda_sync::protocols::{LogSync, LogSyncEvent, LogSyncMessage, TopicLogSyn
 use p2panda_sync::traits::Protocol;
 use tokio::sync::broadcast;
 
-use crate::pipe::{PipeCtl, Wire, WireMsg, pipe};
+use crate::pipe::{PipeCtl, Wire, WireMsg, pipe_gated};
 use crate::world::{Ext, HStore, LogIdT, Op, ReplicaModel, SESSION_TOPIC, Side, TopicT, World, ingest_and_prune, session_logs};
 
 // ---------------------------------------------------------------------------------------------
@@ -364,8 +364,11 @@ async fn wait_any_wake(tasks: &[Task<'_>]) {
 }
 
 /// Runs the tasks until each is finished or blocked on its transport with no wake-up pending.
-async fn settle(tasks: &mut [Task<'_>]) {
+async fn settle(tasks: &mut [Task<'_>], over: &dyn Fn() -> bool) {
     loop {
+        if over() {
+            return;
+        }
         let mut progressed = false;
         for t in tasks.iter_mut() {
             if t.poll_if_woken() {
@@ -390,6 +393,27 @@ pub struct DriveOutcome {
     pub stuck: bool,
     pub relay_steps: usize,
     pub polls: [u64; 2],
+    /// Per side: inbound messages the harness handed to the side while the side's own sink held an
+    /// accepted, not yet flushed message of the sync loop (its transcript already had >= 3 entries,
+    /// i.e. `Have`, `PreSync` and an `Operation`/`Done`). Only counted in manual mode.
+    pub inbound_while_flush_pending: [usize; 2],
+    pub grant_steps: usize,
+    /// Driving was abandoned because a side wrote more than `GateSchedule::max_wire` messages.
+    pub wire_overflow: bool,
+}
+
+/// Harness decisions for gated pipes (`pipe_gated`); the default does nothing for ungated pipes.
+#[derive(Clone, Debug, Default)]
+pub struct GateSchedule {
+    /// One raw value per decision in which a flush grant is among the possible actions.
+    pub picks: Vec<u16>,
+    /// Weight of a "release a message to its reader" action relative to a "grant a flush" action
+    /// (weight 1); 0 is treated as 1.
+    pub release_weight: usize,
+    /// Stop driving (never a verdict by itself) once a side has written more messages than this;
+    /// callers pass a bound no correct session can reach. Sessions that re-send under back-pressure
+    /// can otherwise feed each other duplicates without end. `None`: no bound.
+    pub max_wire: Option<usize>,
 }
 
 /// Drives session A (writes `ctl_ab`'s pipe) and session B (writes `ctl_ba`'s pipe).
@@ -401,39 +425,126 @@ pub async fn drive<'f, M>(
     ctl_ba: &PipeCtl<M>,
     manual: bool,
     schedule: &[bool],
+    after_settle: impl FnMut(),
+) -> DriveOutcome {
+    drive_gated(fut_a, fut_b, probes, ctl_ab, ctl_ba, manual, schedule, &GateSchedule::default(), after_settle).await
+}
+
+#[derive(Clone, Copy, PartialEq, Eq)]
+enum Act {
+    ReleaseAb,
+    ReleaseBa,
+    GrantAb,
+    GrantBa,
+}
+
+/// `drive` for pipes that may have a flush gate. While no flush grant is outstanding the decisions
+/// are exactly those of `drive` (so ungated users are unaffected); otherwise the next action is
+/// drawn from the possible releases and grants with `gate.picks`.
+pub async fn drive_gated<'f, M>(
+    fut_a: BoxFut<'f>,
+    fut_b: BoxFut<'f>,
+    probes: [Arc<Probe>; 2],
+    ctl_ab: &PipeCtl<M>,
+    ctl_ba: &PipeCtl<M>,
+    manual: bool,
+    schedule: &[bool],
+    gate: &GateSchedule,
     mut after_settle: impl FnMut(),
 ) -> DriveOutcome {
     let [pa, pb] = probes;
     let mut tasks = [Task::new(fut_a, pa), Task::new(fut_b, pb)];
     let mut relay_steps = 0usize;
+    let mut grant_steps = 0usize;
+    let mut gate_decisions = 0usize;
+    let mut inbound_while_flush_pending = [0usize; 2];
     let mut stuck = false;
+    let mut wire_overflow = false;
+    let over = || match gate.max_wire {
+        Some(max) => ctl_ab.transcript_len() > max || ctl_ba.transcript_len() > max,
+        None => false,
+    };
+    // A message handed to `reader` while the reader's own sink (`own`) holds an unflushed
+    // sync-loop message.
+    let note_release = |own: &PipeCtl<M>, slot: &mut usize| {
+        if own.flush_pending() && own.transcript_len() >= 3 {
+            *slot += 1;
+        }
+    };
     loop {
-        settle(&mut tasks).await;
+        settle(&mut tasks, &over).await;
         after_settle();
         if tasks.iter().all(|t| t.done()) {
             break;
         }
-        if manual {
-            let can_ab = ctl_ab.unreleased() > 0;
-            let can_ba = ctl_ba.unreleased() > 0;
-            let pick_ab = match (can_ab, can_ba) {
+        if over() {
+            wire_overflow = true;
+            break;
+        }
+        let can_ab = manual && ctl_ab.unreleased() > 0;
+        let can_ba = manual && ctl_ba.unreleased() > 0;
+        let grants_ab = ctl_ab.pending_grants() > 0;
+        let grants_ba = ctl_ba.pending_grants() > 0;
+        let act = if grants_ab || grants_ba {
+            let w = gate.release_weight.max(1);
+            let mut acts: Vec<Act> = Vec::new();
+            if can_ab {
+                acts.extend(std::iter::repeat_n(Act::ReleaseAb, w));
+            }
+            if can_ba {
+                acts.extend(std::iter::repeat_n(Act::ReleaseBa, w));
+            }
+            if grants_ab {
+                acts.push(Act::GrantAb);
+            }
+            if grants_ba {
+                acts.push(Act::GrantBa);
+            }
+            let i = match gate.picks.get(gate_decisions) {
+                Some(raw) => engine::idx(*raw, acts.len()),
+                None => gate_decisions % acts.len(),
+            };
+            gate_decisions += 1;
+            acts[i]
+        } else if manual {
+            match (can_ab, can_ba) {
                 (false, false) => {
                     stuck = true;
                     break;
                 }
-                (true, false) => true,
-                (false, true) => false,
-                (true, true) => schedule.get(relay_steps).copied().unwrap_or(relay_steps % 2 == 0),
-            };
-            if pick_ab {
-                ctl_ab.release_one();
-            } else {
-                ctl_ba.release_one();
+                (true, false) => Act::ReleaseAb,
+                (false, true) => Act::ReleaseBa,
+                (true, true) => {
+                    if schedule.get(relay_steps).copied().unwrap_or(relay_steps % 2 == 0) {
+                        Act::ReleaseAb
+                    } else {
+                        Act::ReleaseBa
+                    }
+                }
             }
-            relay_steps += 1;
         } else {
             stuck = true;
             break;
+        };
+        match act {
+            Act::ReleaseAb => {
+                note_release(ctl_ba, &mut inbound_while_flush_pending[1]);
+                ctl_ab.release_one();
+                relay_steps += 1;
+            }
+            Act::ReleaseBa => {
+                note_release(ctl_ab, &mut inbound_while_flush_pending[0]);
+                ctl_ba.release_one();
+                relay_steps += 1;
+            }
+            Act::GrantAb => {
+                ctl_ab.grant_one();
+                grant_steps += 1;
+            }
+            Act::GrantBa => {
+                ctl_ba.grant_one();
+                grant_steps += 1;
+            }
         }
     }
     let polls = [tasks[0].polls, tasks[1].polls];
@@ -443,6 +554,9 @@ pub async fn drive<'f, M>(
         stuck,
         relay_steps,
         polls,
+        inbound_while_flush_pending,
+        grant_steps,
+        wire_overflow,
     }
 }
 
@@ -487,6 +601,19 @@ pub struct PairOutcome {
     pub stuck: bool,
     pub relay_steps: usize,
     pub max_in_flight: [usize; 2],
+    /// See `DriveOutcome::inbound_while_flush_pending` (A, B).
+    pub inbound_while_flush_pending: [usize; 2],
+    pub grant_steps: usize,
+    /// See `DriveOutcome::wire_overflow`.
+    pub wire_overflow: bool,
+}
+
+/// Flush gates of the two directions (`pipe_gated`) and the harness' grant decisions.
+#[derive(Clone, Debug, Default)]
+pub struct GateConfig {
+    pub gate_ab: Option<usize>,
+    pub gate_ba: Option<usize>,
+    pub schedule: GateSchedule,
 }
 
 impl PairOutcome {
@@ -510,6 +637,19 @@ pub async fn run_pair<S: HStore>(
     model_b: &ReplicaModel,
     cfg: &PairConfig,
 ) -> PairOutcome {
+    run_pair_gated(store_a, store_b, world, model_a, model_b, cfg, &GateConfig::default()).await
+}
+
+/// `run_pair` over pipes with optional flush gates (no gate = identical to `run_pair`).
+pub async fn run_pair_gated<S: HStore>(
+    store_a: Tracked<S>,
+    store_b: Tracked<S>,
+    world: &World,
+    model_a: &ReplicaModel,
+    model_b: &ReplicaModel,
+    cfg: &PairConfig,
+    gate: &GateConfig,
+) -> PairOutcome {
     let event_capacity = (world.total_ops + 64).next_power_of_two();
     let probes = [store_a.probe.clone(), store_b.probe.clone()];
     let mut a = SideOutcome::default();
@@ -519,8 +659,8 @@ pub async fn run_pair<S: HStore>(
     match cfg.proto {
         Proto::LogSync { include_unheld } => {
             type M = LogSyncMessage<LogIdT>;
-            let (mut ab_tx, mut ab_rx, ctl_ab) = pipe::<M>(cfg.buffer_ab, cfg.manual);
-            let (mut ba_tx, mut ba_rx, ctl_ba) = pipe::<M>(cfg.buffer_ba, cfg.manual);
+            let (mut ab_tx, mut ab_rx, ctl_ab) = pipe_gated::<M>(cfg.buffer_ab, cfg.manual, gate.gate_ab);
+            let (mut ba_tx, mut ba_rx, ctl_ba) = pipe_gated::<M>(cfg.buffer_ba, cfg.manual, gate.gate_ba);
             let (ev_a_tx, mut ev_a_rx) = broadcast::channel::<LogSyncEvent<Ext>>(event_capacity);
             let (ev_b_tx, mut ev_b_rx) = broadcast::channel::<LogSyncEvent<Ext>>(event_capacity);
             let sess_a: LogSync<LogIdT, Ext, Tracked<S>, LogSyncEvent<Ext>> =
@@ -530,7 +670,7 @@ pub async fn run_pair<S: HStore>(
             let fut_a: BoxFut = Box::pin(async { sess_a.run(&mut ab_tx, &mut ba_rx).await.map(|_| ()).map_err(|e| e.to_string()) });
             let fut_b: BoxFut = Box::pin(async { sess_b.run(&mut ba_tx, &mut ab_rx).await.map(|_| ()).map_err(|e| e.to_string()) });
             let (ra, rb) = (&mut a.received, &mut b.received);
-            outcome = drive(fut_a, fut_b, probes, &ctl_ab, &ctl_ba, cfg.manual, &cfg.schedule, || {
+            outcome = drive_gated(fut_a, fut_b, probes, &ctl_ab, &ctl_ba, cfg.manual, &cfg.schedule, &gate.schedule, || {
                 while let Ok(ev) = ev_a_rx.try_recv() {
                     if let LogSyncEvent::OperationReceived { operation, .. } = ev {
                         ra.push(*operation);
@@ -551,8 +691,8 @@ pub async fn run_pair<S: HStore>(
         }
         Proto::Topic { live, closer } => {
             type M = TopicLogSyncMessage<LogIdT, Ext>;
-            let (mut ab_tx, mut ab_rx, ctl_ab) = pipe::<M>(cfg.buffer_ab, cfg.manual);
-            let (mut ba_tx, mut ba_rx, ctl_ba) = pipe::<M>(cfg.buffer_ba, cfg.manual);
+            let (mut ab_tx, mut ab_rx, ctl_ab) = pipe_gated::<M>(cfg.buffer_ab, cfg.manual, gate.gate_ab);
+            let (mut ba_tx, mut ba_rx, ctl_ba) = pipe_gated::<M>(cfg.buffer_ba, cfg.manual, gate.gate_ba);
             let (ev_a_tx, mut ev_a_rx) = broadcast::channel::<TopicLogSyncEvent<Ext>>(event_capacity);
             let (ev_b_tx, mut ev_b_rx) = broadcast::channel::<TopicLogSyncEvent<Ext>>(event_capacity);
             let (mut live_a_tx, live_a_rx) = mpsc::channel::<ToSync<Op>>(8);
@@ -569,7 +709,7 @@ pub async fn run_pair<S: HStore>(
             let fut_b: BoxFut = Box::pin(async { sess_b.run(&mut ba_tx, &mut ab_rx).await.map_err(|e| e.to_string()) });
             let (ra, rb) = (&mut a.received, &mut b.received);
             let (fa, fb) = (&mut a.failed_events, &mut b.failed_events);
-            outcome = drive(fut_a, fut_b, probes, &ctl_ab, &ctl_ba, cfg.manual, &cfg.schedule, || {
+            outcome = drive_gated(fut_a, fut_b, probes, &ctl_ab, &ctl_ba, cfg.manual, &cfg.schedule, &gate.schedule, || {
                 while let Ok(ev) = ev_a_rx.try_recv() {
                     match ev {
                         TopicLogSyncEvent::OperationReceived { operation, .. } => ra.push(*operation),
@@ -599,6 +739,9 @@ pub async fn run_pair<S: HStore>(
         results: [res_a, res_b],
         stuck,
         relay_steps,
+        inbound_while_flush_pending,
+        grant_steps,
+        wire_overflow,
         ..
     } = outcome;
     a.result = res_a;
@@ -613,6 +756,9 @@ pub async fn run_pair<S: HStore>(
         stuck,
         relay_steps,
         max_in_flight,
+        inbound_while_flush_pending,
+        grant_steps,
+        wire_overflow,
     }
 }
 
